@@ -176,3 +176,547 @@ Theorem gx_bin_adds_pos (lower1 lower2 : Z -> Qc) (index2 : Qc -> Z) (scale : Qc
   (w0 < c)%Qc -> gx_bin_adds lower1 lower2 index2 scale true fuel i c = Some l ->
   Forall (fun kw => (w0 < snd kw)%Qc) l.
 Proof. rewrite gx_bin_adds_ideal. apply repaired_adds_pos. Qed.
+
+(* ====================================================================== *)
+(** * Part 3 — the binary64 instance                                       *)
+(* ====================================================================== *)
+(* abbreviations, not definitions: the statements are literally about Flocq's B2R / is_finite *)
+#[local] Notation BR x := (B2R 53 1024 x).
+#[local] Notation fin x := (is_finite 53 1024 x = true).
+#[local] Notation fmt := (generic_format radix2 (FLT_exp (-1074) 53)).
+
+(* ---- rounding ---- *)
+Lemma cm_rnd_le (x y : R) : (x <= y)%R -> (rndR x <= rndR y)%R.
+Proof. intros H. unfold rndR. apply round_le; [exact fexp64_valid|apply valid_rnd_N|exact H]. Qed.
+Lemma cm_rnd_generic (x : R) : fmt x -> rndR x = x.
+Proof. intros H. unfold rndR. apply round_generic; [apply valid_rnd_N|exact H]. Qed.
+Lemma cm_rnd_0 : rndR 0 = 0%R.
+Proof. unfold rndR. apply round_0. apply valid_rnd_N. Qed.
+Lemma cm_rnd_1 : rndR 1 = 1%R.
+Proof. apply cm_rnd_generic. apply (int_format 1). vm_compute. discriminate. Qed.
+Lemma cm_BR_format (x : f64) : fmt (BR x).
+Proof. exact (generic_format_B2R 53 1024 x). Qed.
+Lemma cm_rnd_BR (x : f64) : rndR (BR x) = BR x.
+Proof. apply cm_rnd_generic, cm_BR_format. Qed.
+Lemma cm_BR_lt_emax (x : f64) : (Rabs (BR x) < bpow radix2 1024)%R.
+Proof. exact (abs_B2R_lt_emax 53 1024 x). Qed.
+Lemma cm_one_lt_emax : (1 < bpow radix2 1024)%R.
+Proof. change 1%R with (bpow radix2 0). apply bpow_lt. lia. Qed.
+(* the difference of two distinct floats does not round to zero (gradual underflow) *)
+Lemma cm_rnd_sub_pos (a b : f64) : (BR b < BR a)%R -> (0 < rndR (BR a - BR b))%R.
+Proof.
+  intros H.
+  assert (H0 : (0 <= rndR (BR a - BR b))%R) by (rewrite <- cm_rnd_0; apply cm_rnd_le; lra).
+  assert (H1 : rndR (BR a - BR b) <> 0%R).
+  { unfold rndR, Rminus.
+    apply (@round_plus_neq_0 radix2 (FLT_exp (-1074) 53) fexp64_valid
+             (@monotone_exp_not_FTZ _ fexp64_valid (FLT_exp_monotone (-1074) 53)) ZnearestE (valid_rnd_N _)).
+    - apply cm_BR_format.
+    - apply generic_format_opp, cm_BR_format.
+    - lra. }
+  lra.
+Qed.
+
+Lemma cm_overflow_not_finite (z : f64) (s : bool) :
+  B2FF 53 1024 z = binary_overflow 53 1024 mode_NE s -> is_finite 53 1024 z = false.
+Proof. intros H. rewrite <- is_finite_B2FF, H. reflexivity. Qed.
+Lemma cm_overflow_inf (z : f64) (s : bool) :
+  B2FF 53 1024 z = binary_overflow 53 1024 mode_NE s -> z = B754_infinity 53 1024 s.
+Proof.
+  intros H. change (binary_overflow 53 1024 mode_NE s) with (F754_infinity s) in H.
+  destruct z; try discriminate H. cbn in H. injection H as ->. reflexivity.
+Qed.
+
+(* ---- comparisons ---- *)
+Lemma cm_f64_zero_eq : f64_zero = B754_zero 53 1024 false.
+Proof. reflexivity. Qed.
+Lemma cm_fcmp (a b : f64) : fin a -> fin b -> fcmp a b = Some (Rcompare (BR a) (BR b)).
+Proof. intros Ha Hb. exact (Binary.Bcompare_correct 53 1024 a b Ha Hb). Qed.
+Lemma cm_flt_R (a b : f64) : fin a -> fin b -> (flt a b = true <-> (BR a < BR b)%R).
+Proof.
+  intros Ha Hb. unfold flt. rewrite (cm_fcmp a b Ha Hb).
+  destruct (Rcompare_spec (BR a) (BR b)); split; intros; try reflexivity; try discriminate; lra.
+Qed.
+Lemma cm_fle_R (a b : f64) : fin a -> fin b -> (fle a b = true <-> (BR a <= BR b)%R).
+Proof.
+  intros Ha Hb. unfold fle. rewrite (cm_fcmp a b Ha Hb).
+  destruct (Rcompare_spec (BR a) (BR b)); split; intros; try reflexivity; try discriminate; lra.
+Qed.
+Lemma cm_feq_R (a b : f64) : fin a -> fin b -> (feq a b = true <-> BR a = BR b).
+Proof.
+  intros Ha Hb. unfold feq. rewrite (cm_fcmp a b Ha Hb).
+  destruct (Rcompare_spec (BR a) (BR b)); split; intros; try reflexivity; try discriminate; lra.
+Qed.
+Lemma cm_fle_zero_r (a : f64) : fin a -> (fle a f64_zero = true <-> (BR a <= 0)%R).
+Proof. intros Ha. exact (cm_fle_R a f64_zero Ha eq_refl). Qed.
+Lemma cm_fle_zero_l (a : f64) : fin a -> (fle f64_zero a = true <-> (0 <= BR a)%R).
+Proof. intros Ha. exact (cm_fle_R f64_zero a eq_refl Ha). Qed.
+
+Lemma cm_fin_not_pinf (x : f64) : fin x -> f_is_pinf x = false.
+Proof. destruct x as [s|s|s p e|s m e He]; try discriminate; reflexivity. Qed.
+Lemma cm_fin_not_ninf (x : f64) : fin x -> f_is_ninf x = false.
+Proof. destruct x as [s|s|s p e|s m e He]; try discriminate; reflexivity. Qed.
+Lemma cm_fin_not_nan (x : f64) : fin x -> f_is_nan x = false.
+Proof. destruct x as [s|s|s p e|s m e He]; try discriminate; reflexivity. Qed.
+
+Lemma cm_sign_false (x : f64) : fin x -> Bsign 53 1024 x = false -> (0 <= BR x)%R.
+Proof.
+  destruct x as [s|s|s p e|s m e He]; try discriminate; cbn; intros _ Hs.
+  - lra.
+  - subst s. apply F2R_ge_0. cbn. lia.
+Qed.
+Lemma cm_sign_true (x : f64) : fin x -> Bsign 53 1024 x = true -> (BR x <= 0)%R.
+Proof.
+  destruct x as [s|s|s p e|s m e He]; try discriminate; cbn; intros _ Hs.
+  - lra.
+  - subst s. apply F2R_le_0. cbn. lia.
+Qed.
+
+(* ---- math.Max / math.Min ---- *)
+Lemma go_max_fin (x y : f64) : fin x -> fin y ->
+  fin (go_max x y) /\ BR (go_max x y) = Rmax (BR x) (BR y) /\ (go_max x y = x \/ go_max x y = y).
+Proof.
+  intros Hx Hy. unfold go_max.
+  rewrite (cm_fin_not_pinf x Hx), (cm_fin_not_pinf y Hy), (cm_fin_not_nan x Hx), (cm_fin_not_nan y Hy). cbn [orb].
+  destruct (feq x f64_zero && feq x y) eqn:E.
+  - apply andb_true_iff in E. destruct E as (E0 & Exy).
+    apply (cm_feq_R x f64_zero Hx eq_refl) in E0. apply (cm_feq_R x y Hx Hy) in Exy.
+    change (BR f64_zero) with 0%R in E0.
+    destruct (f_signbit x).
+    + split; [exact Hy|]. split; [|right; reflexivity]. rewrite <- Exy, E0. symmetry. apply Rmax_left. lra.
+    + split; [exact Hx|]. split; [|left; reflexivity]. rewrite <- Exy, E0. symmetry. apply Rmax_left. lra.
+  - unfold fgt. destruct (flt y x) eqn:F.
+    + apply (cm_flt_R y x Hy Hx) in F. split; [exact Hx|]. split; [|left; reflexivity]. symmetry. apply Rmax_left. lra.
+    + split; [exact Hy|]. split; [|right; reflexivity]. symmetry. apply Rmax_right.
+      destruct (Rle_lt_dec (BR x) (BR y)) as [L|L]; [exact L|].
+      apply (cm_flt_R y x Hy Hx) in L. congruence.
+Qed.
+Lemma go_min_fin (x y : f64) : fin x -> fin y ->
+  fin (go_min x y) /\ BR (go_min x y) = Rmin (BR x) (BR y) /\ (go_min x y = x \/ go_min x y = y).
+Proof.
+  intros Hx Hy. unfold go_min.
+  rewrite (cm_fin_not_ninf x Hx), (cm_fin_not_ninf y Hy), (cm_fin_not_nan x Hx), (cm_fin_not_nan y Hy). cbn [orb].
+  destruct (feq x f64_zero && feq x y) eqn:E.
+  - apply andb_true_iff in E. destruct E as (E0 & Exy).
+    apply (cm_feq_R x f64_zero Hx eq_refl) in E0. apply (cm_feq_R x y Hx Hy) in Exy.
+    change (BR f64_zero) with 0%R in E0.
+    destruct (f_signbit x).
+    + split; [exact Hx|]. split; [|left; reflexivity]. rewrite <- Exy, E0. symmetry. apply Rmin_left. lra.
+    + split; [exact Hy|]. split; [|right; reflexivity]. rewrite <- Exy, E0. symmetry. apply Rmin_left. lra.
+  - destruct (flt x y) eqn:F.
+    + apply (cm_flt_R x y Hx Hy) in F. split; [exact Hx|]. split; [|left; reflexivity]. symmetry. apply Rmin_left. lra.
+    + split; [exact Hy|]. split; [|right; reflexivity]. symmetry. apply Rmin_right.
+      destruct (Rle_lt_dec (BR y) (BR x)) as [L|L]; [exact L|].
+      apply (cm_flt_R x y Hx Hy) in L. congruence.
+Qed.
+
+(* lowerIntersectionBound: outLow passed the loop condition (so it is neither NaN nor +Inf; it may be -Inf) *)
+Lemma go_max_lb (x y h : f64) : fin y -> fin h -> flt x h = true ->
+  fin (go_max x y) /\ (BR y <= BR (go_max x y))%R.
+Proof.
+  intros Hy Hh Hlt.
+  destruct x as [s|s|s p e|s m e He].
+  - destruct (go_max_fin (B754_zero 53 1024 s) y eq_refl Hy) as (F & E & _). split; [exact F|]. rewrite E. apply Rmax_r.
+  - destruct s.
+    + (* -Inf *) destruct y as [sy|sy|sy py ey|sy my ey Hey]; try discriminate Hy; split; try reflexivity; apply Rle_refl.
+    + (* +Inf < h is false *) destruct h as [sh|sh|sh ph eh|sh mh eh Heh]; discriminate.
+  - discriminate Hlt.
+  - destruct (go_max_fin (B754_finite 53 1024 s m e He) y eq_refl Hy) as (F & E & _). split; [exact F|]. rewrite E. apply Rmax_r.
+Qed.
+(* higherIntersectionBound: outHigh is any non-NaN value *)
+Lemma go_min_ub (x y : f64) : fin y -> f_is_nan x = false ->
+  go_min x y = f64_ninf \/ (fin (go_min x y) /\ (BR (go_min x y) <= BR y)%R).
+Proof.
+  intros Hy Hn.
+  destruct x as [s|s|s p e|s m e He].
+  - right. destruct (go_min_fin (B754_zero 53 1024 s) y eq_refl Hy) as (F & E & _). split; [exact F|]. rewrite E. apply Rmin_r.
+  - destruct s.
+    + left. reflexivity.
+    + right. destruct y as [sy|sy|sy py ey|sy my ey Hey]; try discriminate Hy; split; try reflexivity; apply Rle_refl.
+  - discriminate Hn.
+  - right. destruct (go_min_fin (B754_finite 53 1024 s m e He) y eq_refl Hy) as (F & E & _). split; [exact F|]. rewrite E. apply Rmin_r.
+Qed.
+
+(* ---- subtraction ---- *)
+Lemma cm_fsub_ninf (m : f64) : fin m -> fsub f64_ninf m = f64_ninf.
+Proof. destruct m as [s|s|s p e|s mm e He]; try discriminate; intros _; reflexivity. Qed.
+
+Lemma cm_fsub_R (a b : f64) : fin a -> fin b -> fin (fsub a b) -> BR (fsub a b) = rndR (BR a - BR b).
+Proof.
+  intros Ha Hb Hf.
+  pose proof (Binary.Bminus_correct 53 1024 eq_refl eq_refl binop_nan_pl64 mode_NE a b Ha Hb) as H.
+  change (Binary.Bminus 53 1024 eq_refl eq_refl binop_nan_pl64 mode_NE a b) with (fsub a b) in H.
+  destruct (Rlt_bool _ _).
+  - exact (proj1 H).
+  - destruct H as (H & _). apply cm_overflow_not_finite in H. congruence.
+Qed.
+
+(* the guard's test, read on the operands: a - b <= 0 is false (and a, b finite) only if b < a *)
+Lemma cm_fsub_pos_lt (a b : f64) : fin a -> fin b -> fle (fsub a b) f64_zero = false -> (BR b < BR a)%R.
+Proof.
+  intros Ha Hb Hg.
+  pose proof (Binary.Bminus_correct 53 1024 eq_refl eq_refl binop_nan_pl64 mode_NE a b Ha Hb) as H.
+  change (Binary.Bminus 53 1024 eq_refl eq_refl binop_nan_pl64 mode_NE a b) with (fsub a b) in H.
+  match type of H with context [Rlt_bool ?x ?y] => destruct (Rlt_bool_spec x y) as [Eb|Eb] end.
+  - destruct H as (H1 & H2 & _).
+    destruct (Rle_lt_dec (BR a) (BR b)) as [L|L]; [exfalso|exact L].
+    assert (Hle : (BR (fsub a b) <= 0)%R).
+    { rewrite H1. change (round radix2 (SpecFloat.fexp 53 1024) (round_mode mode_NE)) with rndR.
+      rewrite <- cm_rnd_0. apply cm_rnd_le. lra. }
+    apply (cm_fle_zero_r _ H2) in Hle. congruence.
+  - destruct H as (H1 & H2). apply cm_overflow_inf in H1.
+    destruct (Bsign 53 1024 a) eqn:Sa.
+    + rewrite H1 in Hg. discriminate Hg.
+    + assert (Sb : Bsign 53 1024 b = true) by (destruct (Bsign 53 1024 b); [reflexivity|discriminate H2]).
+      pose proof (cm_sign_false a Ha Sa) as Pa. pose proof (cm_sign_true b Hb Sb) as Pb.
+      change (round radix2 (SpecFloat.fexp 53 1024) (round_mode mode_NE)) with rndR in Eb.
+      destruct (Req_dec (BR a - BR b) 0) as [Z|NZ].
+      * rewrite Z, cm_rnd_0, Rabs_R0 in Eb. pose proof (bpow_gt_0 radix2 1024). lra.
+      * lra.
+Qed.
+
+(* a non-negative difference whose rounding stays below 2^1024 *)
+Lemma cm_fsub_bounded (a b : f64) : fin a -> fin b -> (0 <= BR a - BR b)%R ->
+  (rndR (BR a - BR b) < bpow radix2 1024)%R ->
+  fin (fsub a b) /\ BR (fsub a b) = rndR (BR a - BR b).
+Proof.
+  intros Ha Hb H0 Hlt.
+  pose proof (Binary.Bminus_correct 53 1024 eq_refl eq_refl binop_nan_pl64 mode_NE a b Ha Hb) as H.
+  change (Binary.Bminus 53 1024 eq_refl eq_refl binop_nan_pl64 mode_NE a b) with (fsub a b) in H.
+  change (round radix2 (SpecFloat.fexp 53 1024) (round_mode mode_NE)) with rndR in H.
+  assert (P : (0 <= rndR (BR a - BR b))%R) by (rewrite <- cm_rnd_0; apply cm_rnd_le; exact H0).
+  rewrite Rlt_bool_true in H by (rewrite Rabs_pos_eq; assumption).
+  destruct H as (H1 & H2 & _). split; assumption.
+Qed.
+
+(* inSize when both bounds are non-negative: no overflow *)
+Lemma cm_fsub_fin_nonneg (a b : f64) : fin a -> fin b -> fle f64_zero a = true -> fle f64_zero b = true -> fin (fsub a b).
+Proof.
+  intros Ha Hb Pa Pb. apply (cm_fle_zero_l a Ha) in Pa. apply (cm_fle_zero_l b Hb) in Pb.
+  pose proof (Binary.Bminus_correct 53 1024 eq_refl eq_refl binop_nan_pl64 mode_NE a b Ha Hb) as H.
+  change (Binary.Bminus 53 1024 eq_refl eq_refl binop_nan_pl64 mode_NE a b) with (fsub a b) in H.
+  change (round radix2 (SpecFloat.fexp 53 1024) (round_mode mode_NE)) with rndR in H.
+  rewrite Rlt_bool_true in H; [exact (proj1 (proj2 H))|].
+  assert (U : (rndR (BR a - BR b) <= BR a)%R) by (apply Rle_trans with (rndR (BR a)); [apply cm_rnd_le; lra|rewrite cm_rnd_BR; apply Rle_refl]).
+  assert (L : (- BR b <= rndR (BR a - BR b))%R).
+  { replace (- BR b)%R with (rndR (- BR b)); [apply cm_rnd_le; lra|]. apply cm_rnd_generic, generic_format_opp, cm_BR_format. }
+  pose proof (cm_BR_lt_emax a) as Ba. pose proof (cm_BR_lt_emax b) as Bb.
+  rewrite Rabs_pos_eq in Ba, Bb by assumption.
+  apply Rabs_lt. lra.
+Qed.
+
+(* ---- proportion and weight ---- *)
+Lemma cm_fdiv_unit (a b : f64) : fin a -> fin b -> (0 <= BR a <= BR b)%R -> (0 < BR b)%R ->
+  fin (fdiv a b) /\ (0 <= BR (fdiv a b) <= 1)%R.
+Proof.
+  intros Ha Hb Hab Hpos.
+  assert (Hnz : BR b <> 0%R) by lra.
+  pose proof (Binary.Bdiv_correct 53 1024 eq_refl eq_refl binop_nan_pl64 mode_NE a b Hnz) as H.
+  change (Binary.Bdiv 53 1024 eq_refl eq_refl binop_nan_pl64 mode_NE a b) with (fdiv a b) in H.
+  change (round radix2 (SpecFloat.fexp 53 1024) (round_mode mode_NE)) with rndR in H.
+  assert (Q : (0 <= BR a / BR b <= 1)%R).
+  { split.
+    - apply Rmult_le_pos; [lra|]. left. apply Rinv_0_lt_compat. exact Hpos.
+    - apply (Rmult_le_reg_r (BR b)); [exact Hpos|]. unfold Rdiv. rewrite Rmult_assoc, Rinv_l by exact Hnz. lra. }
+  assert (P0 : (0 <= rndR (BR a / BR b))%R) by (rewrite <- cm_rnd_0; apply cm_rnd_le; lra).
+  assert (P1 : (rndR (BR a / BR b) <= 1)%R) by (rewrite <- cm_rnd_1; apply cm_rnd_le; lra).
+  rewrite Rlt_bool_true in H by (rewrite Rabs_pos_eq by exact P0; pose proof cm_one_lt_emax; lra).
+  destruct H as (H1 & H2 & _). rewrite H2, H1. split; [exact Ha|]. split; assumption.
+Qed.
+Lemma cm_fmul_unit (p c : f64) : fin p -> fin c -> (0 <= BR p <= 1)%R -> (0 <= BR c)%R ->
+  fin (fmul p c) /\ (0 <= BR (fmul p c) <= BR c)%R.
+Proof.
+  intros Hp Hc Hp1 Hc0.
+  pose proof (Binary.Bmult_correct 53 1024 eq_refl eq_refl binop_nan_pl64 mode_NE p c) as H.
+  change (Binary.Bmult 53 1024 eq_refl eq_refl binop_nan_pl64 mode_NE p c) with (fmul p c) in H.
+  change (round radix2 (SpecFloat.fexp 53 1024) (round_mode mode_NE)) with rndR in H.
+  assert (Q : (0 <= BR p * BR c <= BR c)%R).
+  { split; [apply Rmult_le_pos; lra|]. rewrite <- (Rmult_1_l (BR c)) at 2. apply Rmult_le_compat_r; lra. }
+  assert (P0 : (0 <= rndR (BR p * BR c))%R) by (rewrite <- cm_rnd_0; apply cm_rnd_le; lra).
+  assert (P1 : (rndR (BR p * BR c) <= BR c)%R) by (apply Rle_trans with (rndR (BR c)); [apply cm_rnd_le; lra|rewrite cm_rnd_BR; apply Rle_refl]).
+  pose proof (cm_BR_lt_emax c) as Bc. rewrite Rabs_pos_eq in Bc by exact Hc0.
+  rewrite Rlt_bool_true in H by (rewrite Rabs_pos_eq by exact P0; lra).
+  destruct H as (H1 & H2 & _). rewrite H2, H1, Hp, Hc. split; [reflexivity|]. split; assumption.
+Qed.
+
+(* ====================================================================== *)
+(* one iteration of the repaired loop that reaches AddWithCount *)
+Lemma cmf_call_bounds (inLow inHigh c outLow outHigh : f64) :
+  fin inLow -> fin inHigh -> fin (fsub inHigh inLow) -> fin c -> fle f64_zero c = true ->
+  flt outLow inHigh = true -> f_is_nan outHigh = false ->
+  fle (g_isect f64 f64_arith inLow inHigh outLow outHigh) f64_zero = false ->
+  let w := g_share f64 f64_arith (fsub inHigh inLow) (g_isect f64 f64_arith inLow inHigh outLow outHigh) c in
+  (fin w /\ fle f64_zero w = true /\ fle w c = true) /\
+  flt (go_max outLow inLow) (go_min outHigh inHigh) = true.
+Proof.
+  intros Hl Hh Hs Hc Hc0 Hcond Hnan Hg.
+  unfold g_isect, g_share in *. cbn [c_sub c_min c_max c_mul c_div f64_arith] in *.
+  destruct (go_max_lb outLow inLow inHigh Hl Hh Hcond) as (Fmx & Lmx).
+  destruct (go_min_ub outHigh inHigh Hh Hnan) as [En|(Fmn & Umn)].
+  { rewrite En, (cm_fsub_ninf _ Fmx) in Hg. discriminate Hg. }
+  set (mx := go_max outLow inLow) in *. set (mn := go_min outHigh inHigh) in *.
+  pose proof (cm_fsub_pos_lt mn mx Fmn Fmx Hg) as Hlt.
+  (* inSize *)
+  pose proof (cm_fsub_R inHigh inLow Hh Hl Hs) as Rs.
+  assert (HD : (BR inLow < BR inHigh)%R) by lra.
+  pose proof (cm_rnd_sub_pos inHigh inLow HD) as Ps. rewrite <- Rs in Ps.
+  (* intersectionSize <= inSize, finite *)
+  assert (Hmono : (rndR (BR mn - BR mx) <= BR (fsub inHigh inLow))%R) by (rewrite Rs; apply cm_rnd_le; lra).
+  pose proof (cm_BR_lt_emax (fsub inHigh inLow)) as Bs. rewrite Rabs_pos_eq in Bs by lra.
+  destruct (cm_fsub_bounded mn mx Fmn Fmx) as (Fi & Ri); [lra|lra|].
+  pose proof (cm_rnd_sub_pos mn mx Hlt) as Pi. rewrite <- Ri in Pi.
+  (* proportion in [0, 1] *)
+  destruct (cm_fdiv_unit (fsub mn mx) (fsub inHigh inLow) Fi Hs) as (Fp & Rp); [lra|exact Ps|].
+  (* weight in [0, count] *)
+  apply (cm_fle_zero_l c Hc) in Hc0.
+  destruct (cm_fmul_unit _ c Fp Hc Rp Hc0) as (Fw & Rw).
+  split; [split; [exact Fw|split]|].
+  - apply (cm_fle_zero_l _ Fw). lra.
+  - apply (cm_fle_R _ c Fw Hc). lra.
+  - apply (cm_flt_R mx mn Fmx Fmn). exact Hlt.
+Qed.
+
+Definition cmf_good (c : f64) (w : f64) : Prop := fin w /\ fle f64_zero w = true /\ fle w c = true.
+
+(* the repaired loop: every weight passed to AddWithCount is a finite float in [0, count] — in particular not
+   negative and not NaN — provided the scaled source bounds, their difference and the count are finite, the count
+   is >= 0, and the upper bound of the target bin is not NaN. No hypothesis on the order of the bounds, on Index,
+   or on the monotony of LowerBound. *)
+Theorem cmf_loop_weights (lower2 : Z -> f64) (fuel : nat) (inLow inHigh c : f64) (out : Z) (l : list (Z * f64)) :
+  fin inLow -> fin inHigh -> fin (fsub inHigh inLow) -> fin c -> fle f64_zero c = true ->
+  cmf_adds_loop lower2 true fuel inLow inHigh (fsub inHigh inLow) c out = Some l ->
+  Forall (fun jw => f_is_nan (lower2 (fst jw + 1)) = false -> cmf_good c (snd jw)) l.
+Proof.
+  intros Hl Hh Hs Hc Hc0 H.
+  apply g_adds_loop_emitted in H. eapply Forall_impl; [|exact H].
+  intros [j w] (_ & Hcond & Hskip & Hw) Hn. cbn [fst snd] in *.
+  unfold g_skips in Hskip. cbn [andb c_le0 c_ltb f64_arith] in Hskip, Hcond.
+  rewrite Hw. exact (proj1 (cmf_call_bounds inLow inHigh c (lower2 j) (lower2 (j + 1)) Hl Hh Hs Hc Hc0 Hcond Hn Hskip)).
+Qed.
+
+(* the same calls overlap the scaled source range, in floats *)
+Theorem cmf_loop_overlap (lower2 : Z -> f64) (fuel : nat) (inLow inHigh c : f64) (out : Z) (l : list (Z * f64)) :
+  fin inLow -> fin inHigh ->
+  cmf_adds_loop lower2 true fuel inLow inHigh (fsub inHigh inLow) c out = Some l ->
+  Forall (fun jw => flt (lower2 (fst jw)) inHigh = true /\
+                    (f_is_nan (lower2 (fst jw + 1)) = false ->
+                     flt (go_max (lower2 (fst jw)) inLow) (go_min (lower2 (fst jw + 1)) inHigh) = true)) l.
+Proof.
+  intros Hl Hh H.
+  apply g_adds_loop_emitted in H. eapply Forall_impl; [|exact H].
+  intros [j w] (_ & Hcond & Hskip & _). cbn [fst snd] in *.
+  unfold g_skips in Hskip. cbn [andb c_le0 c_ltb f64_arith] in Hskip, Hcond.
+  split; [exact Hcond|]. intros Hn.
+  unfold g_isect in Hskip. cbn [c_sub c_min c_max f64_arith] in Hskip.
+  destruct (go_max_lb (lower2 j) inLow inHigh Hl Hh Hcond) as (Fmx & _).
+  destruct (go_min_ub (lower2 (j + 1)) inHigh Hh Hn) as [En|(Fmn & _)].
+  { rewrite En, (cm_fsub_ninf _ Fmx) in Hskip. discriminate Hskip. }
+  apply (cm_flt_R _ _ Fmx Fmn). exact (cm_fsub_pos_lt _ _ Fmn Fmx Hskip).
+Qed.
+
+(* one source bin *)
+Theorem cmf_bin_weights (lower1 lower2 : Z -> f64) (index2 : f64 -> Z) (scale : f64) (fuel : nat) (i : Z) (c : f64)
+    (l : list (Z * f64)) :
+  let inLow := fmul (lower1 i) scale in
+  let inHigh := fmul (lower1 (i + 1)) scale in
+  fin inLow -> fin inHigh -> fin (fsub inHigh inLow) -> fin c -> fle f64_zero c = true ->
+  cmf_bin_adds lower1 lower2 index2 scale true fuel i c = Some l ->
+  Forall (fun jw => f_is_nan (lower2 (fst jw + 1)) = false -> cmf_good c (snd jw)) l.
+Proof. intros inLow inHigh. apply cmf_loop_weights. Qed.
+
+(* non-negative scaled bounds: the difference cannot overflow *)
+Theorem cmf_bin_weights_nonneg (lower1 lower2 : Z -> f64) (index2 : f64 -> Z) (scale : f64) (fuel : nat) (i : Z) (c : f64)
+    (l : list (Z * f64)) :
+  let inLow := fmul (lower1 i) scale in
+  let inHigh := fmul (lower1 (i + 1)) scale in
+  fin inLow -> fin inHigh -> fle f64_zero inLow = true -> fle f64_zero inHigh = true -> fin c -> fle f64_zero c = true ->
+  cmf_bin_adds lower1 lower2 index2 scale true fuel i c = Some l ->
+  Forall (fun jw => f_is_nan (lower2 (fst jw + 1)) = false -> cmf_good c (snd jw)) l.
+Proof.
+  intros inLow inHigh Hl Hh Pl Ph. apply cmf_loop_weights; try assumption.
+  apply cm_fsub_fin_nonneg; assumption.
+Qed.
+
+Theorem cmf_bin_overlap (lower1 lower2 : Z -> f64) (index2 : f64 -> Z) (scale : f64) (fuel : nat) (i : Z) (c : f64)
+    (l : list (Z * f64)) :
+  let inLow := fmul (lower1 i) scale in
+  let inHigh := fmul (lower1 (i + 1)) scale in
+  fin inLow -> fin inHigh ->
+  cmf_bin_adds lower1 lower2 index2 scale true fuel i c = Some l ->
+  Forall (fun jw => flt (lower2 (fst jw)) inHigh = true /\
+                    (f_is_nan (lower2 (fst jw + 1)) = false ->
+                     flt (go_max (lower2 (fst jw)) inLow) (go_min (lower2 (fst jw + 1)) inHigh) = true)) l.
+Proof. intros inLow inHigh. apply cmf_loop_overlap. Qed.
+
+(* a whole store *)
+Definition cmf_src_ok (lower1 : Z -> f64) (scale : f64) (ic : Z * f64) : Prop :=
+  let inLow := fmul (lower1 (fst ic)) scale in
+  let inHigh := fmul (lower1 (fst ic + 1)) scale in
+  fin inLow /\ fin inHigh /\ fin (fsub inHigh inLow) /\ fin (snd ic) /\ fle f64_zero (snd ic) = true.
+
+Theorem cmf_store_weights (lower1 lower2 : Z -> f64) (index2 : f64 -> Z) (scale : f64) (src l : list (Z * f64)) :
+  Forall (cmf_src_ok lower1 scale) src ->
+  cmf_store_adds lower1 lower2 index2 scale true src = Some l ->
+  Forall (fun jw => f_is_nan (lower2 (fst jw + 1)) = false -> fin (snd jw) /\ fle f64_zero (snd jw) = true) l.
+Proof.
+  unfold cmf_store_adds. revert l. induction src as [|[i c] tl IH]; intros l Hs H.
+  - injection H as <-. constructor.
+  - cbn [g_store_adds] in H. inversion Hs as [|? ? (Hl & Hh & Hsz & Hc & Hc0) Htl]; subst. cbn [fst snd] in *.
+    destruct (cmf_fuel lower1 index2 scale i) as [fuel|]; [|discriminate H].
+    destruct (g_bin_adds f64 f64_arith lower1 lower2 index2 scale true fuel i c) as [l1|] eqn:E1; [|discriminate H].
+    destruct (g_store_adds f64 f64_arith lower1 lower2 index2 scale true (cmf_fuel lower1 index2 scale) tl) as [l2|] eqn:E2; [|discriminate H].
+    injection H as <-. apply Forall_app. split.
+    + pose proof (cmf_bin_weights lower1 lower2 index2 scale fuel i c l1 Hl Hh Hsz Hc Hc0 E1) as G.
+      eapply Forall_impl; [|exact G]. intros jw P Hn. destruct (P Hn) as (A1 & A2 & _). split; assumption.
+    + apply IH; [exact Htl|reflexivity].
+Qed.
+
+(* the number of calls per store is bounded by the fuels *)
+Theorem cmf_bin_calls_bounded (lower1 lower2 : Z -> f64) (index2 : f64 -> Z) (scale : f64) (guard : bool) (fuel : nat) (i : Z) (c : f64)
+    (l : list (Z * f64)) :
+  cmf_bin_adds lower1 lower2 index2 scale guard fuel i c = Some l ->
+  (length l < fuel)%nat /\ StronglySorted Z.lt (map fst l).
+Proof.
+  intros H. split.
+  - exact (g_adds_loop_length _ _ _ _ _ _ _ _ _ _ _ H).
+  - exact (g_adds_loop_sorted _ _ _ _ _ _ _ _ _ _ _ H).
+Qed.
+
+(* a touching target bin (its lower bound equals inHigh) makes no call: this is why replacing `<` by `<=` in the
+   loop condition does not change the calls of the repaired loop *)
+Lemma cmf_touching_bin_skipped (inLow inHigh outLow outHigh : f64) :
+  fin inLow -> fin inHigh -> fin outLow -> feq outLow inHigh = true -> f_is_nan outHigh = false ->
+  fle (g_isect f64 f64_arith inLow inHigh outLow outHigh) f64_zero = true.
+Proof.
+  intros Hl Hh Ho He Hn. unfold g_isect. cbn [c_sub c_min c_max f64_arith].
+  destruct (go_max_fin outLow inLow Ho Hl) as (Fmx & Rmx & _).
+  apply (cm_feq_R outLow inHigh Ho Hh) in He.
+  destruct (go_min_ub outHigh inHigh Hh Hn) as [En|(Fmn & Umn)].
+  - rewrite En, (cm_fsub_ninf _ Fmx). reflexivity.
+  - destruct (fle (fsub (go_min outHigh inHigh) (go_max outLow inLow)) f64_zero) eqn:E; [reflexivity|exfalso].
+    pose proof (cm_fsub_pos_lt _ _ Fmn Fmx E) as L. rewrite Rmx in L.
+    pose proof (Rmax_l (BR outLow) (BR inLow)). lra.
+Qed.
+
+(* ====================================================================== *)
+(* concrete floats *)
+(* hand-made mapping of base 2 on both sides (the ideal witness of Sketch/ChangeMapping.v, in floats):
+   LowerBound(k) = 2^k, scale 1.001, and an Index that answers one bin too low within 0.01 above the edge 2 *)
+Definition exf_lower (k : Z) : f64 := q2f (ex_lower k).
+Definition exf_scale : f64 := f64_of_bits 4607186922399644778.              (* 1.001 = 0x3ff004189374bc6a *)
+Definition exf_c (n : Z) : f64 := q2f (w_of_Z n).
+Definition exf_index_exact (x : f64) : Z :=
+  if flt x (exf_c 1) then -1 else if flt x (exf_c 2) then 0 else if flt x (exf_c 4) then 1
+  else if flt x (exf_c 8) then 2 else if flt x (exf_c 16) then 3 else 4.
+Definition exf_index_off (x : f64) : Z :=
+  if flt x (exf_c 1) then -1 else if flt x (f64_of_bits 4611708536425524756) (* 2.01 *) then 0 else if flt x (exf_c 4) then 1
+  else if flt x (exf_c 8) then 2 else if flt x (exf_c 16) then 3 else 4.
+Definition bits_of_adds (l : option (list (Z * f64))) : option (list (Z * N)) :=
+  match l with Some l => Some (map (fun jw => (fst jw, bits_of_f64 (snd jw))) l) | None => None end.
+
+(* the hypotheses of [cmf_bin_weights] hold of concrete floats, and so does its conclusion *)
+Example exf_hyps :
+  let inLow := fmul (exf_lower 1) exf_scale in
+  let inHigh := fmul (exf_lower 2) exf_scale in
+  is_finite 53 1024 inLow = true /\ is_finite 53 1024 inHigh = true /\ is_finite 53 1024 (fsub inHigh inLow) = true /\
+  is_finite 53 1024 f64_one = true /\ fle f64_zero f64_one = true /\
+  bits_of_adds (cmf_bin_adds exf_lower exf_lower exf_index_off exf_scale true 6 1 f64_one) =
+    Some [(1, 4607164422397910035%N); (2, 4566753501465799841%N)] /\    (* 0.9980019980019982, 0.001998001998001778 *)
+  f_is_nan (exf_lower 2) = false /\ f_is_nan (exf_lower 3) = false.
+Proof. vm_compute. repeat split; reflexivity. Qed.
+
+(* the legacy loop (guard = false) on the same floats: AddWithCount(0, -0.000999000999000999) *)
+Example exf_legacy_negative :
+  bits_of_adds (cmf_bin_adds exf_lower exf_lower exf_index_off exf_scale false 6 1 f64_one) =
+    Some [(0, 13785621938693205153%N); (1, 4607164422397910035%N); (2, 4566753501465799841%N)].
+Proof. vm_compute. reflexivity. Qed.
+
+(* boolean form of "some call has a negative weight" (evaluated without normalising any float) *)
+Definition has_negative (r : option (list (Z * f64))) : bool :=
+  match r with Some l => existsb (fun jw => flt (snd jw) f64_zero) l | None => false end.
+Lemma has_negative_spec (r : option (list (Z * f64))) :
+  has_negative r = true -> exists l, r = Some l /\ Exists (fun jw => flt (snd jw) f64_zero = true) l.
+Proof.
+  destruct r as [l|]; [|discriminate]. cbn [has_negative]. intros H. exists l. split; [reflexivity|].
+  apply Exists_exists. apply existsb_exists in H. exact H.
+Qed.
+
+Theorem exf_legacy_refuted :
+  exists (lower1 lower2 : Z -> f64) (index2 : f64 -> Z) (scale : f64) (fuel : nat) (i : Z) (c : f64) (l : list (Z * f64)),
+    let inLow := fmul (lower1 i) scale in
+    let inHigh := fmul (lower1 (i + 1)) scale in
+    (is_finite 53 1024 inLow = true /\ is_finite 53 1024 inHigh = true /\ is_finite 53 1024 (fsub inHigh inLow) = true /\
+     is_finite 53 1024 c = true /\ fle f64_zero c = true /\ (forall j, -8 <= j <= 8 -> f_is_nan (lower2 j) = false)) /\
+    cmf_bin_adds lower1 lower2 index2 scale false fuel i c = Some l /\
+    Exists (fun jw => flt (snd jw) f64_zero = true) l.
+Proof.
+  exists exf_lower, exf_lower, exf_index_off, exf_scale, 6%nat, 1, f64_one.
+  destruct (has_negative_spec (cmf_bin_adds exf_lower exf_lower exf_index_off exf_scale false 6 1 f64_one)) as (l & E & H).
+  { vm_compute. reflexivity. }
+  exists l. cbv zeta. split; [|split; [exact E|exact H]].
+  repeat (split; [vm_compute; reflexivity|]).
+  intros j Hj.
+  assert (Hc : forallb (fun k => negb (f_is_nan (exf_lower k))) (zrange (-8) 8) = true) by (vm_compute; reflexivity).
+  rewrite forallb_forall in Hc. specialize (Hc j (proj2 (in_zrange (-8) 8 j) Hj)).
+  destruct (f_is_nan (exf_lower j)); [discriminate Hc|reflexivity].
+Qed.
+
+(* ---- D6 itself, on the bit-exact logarithmic mapping: NewLogarithmicMapping(0.01) on both sides, the source bin
+   (-186, 1.0), scaleFactor 0x3feebec6cea31233. Go's math.Log / math.Exp enter as the finite table of the answers
+   the implementation's runtime gave for exactly the arguments this computation asks (recorded through
+   `vrun --libm`); every other argument answers NaN. exp(log(x)) is one ulp below x at inLowerBound, Index answers
+   one bin too low, and the legacy loop passes a negative weight to AddWithCount. *)
+Definition d6_exp (x : f64) : f64 :=
+  match bits_of_f64 x with
+  | 4649451482093607557%N => fb 9216230289645164774     (* 40862b7d369a5a85 -> 7fe6a09e667ed8e6 *)
+  | 4721033609408155489%N => fb 9218868437227405312     (* 41847b0dfd740f61 -> 7ff0000000000000 *)
+  | 13838886392704070127%N => fb 4582782413862100854     (* c00d99da441cf1ef -> 3f99505325285f76 *)
+  | 13838931430201633786%N => fb 4582641320942226065     (* c00dc2d060282bfa -> 3f98d00063c9ca91 *)
+  | 13838976467699197445%N => fb 4582503021941556715     (* c00debc67c336605 -> 3f98523824fb05eb *)
+  | 13839021505196761104%N => fb 4582367461534960027     (* c00e14bc983ea010 -> 3f97d6ed8719899b *)
+  | 13839066542694324763%N => fb 4582234585492850402     (* c00e3db2b449da1b -> 3f975e13e9cf86e2 *)
+  | 13944405646265615741%N => fb 0                       (* c1847b0dfd9d057d -> 0000000000000000 *)
+  | _ => go_nan
+  end.
+Definition d6_log (x : f64) : f64 :=
+  match bits_of_f64 x with
+  | 4582367461534960028%N => fb 13839021505196761104     (* 3f97d6ed8719899c -> c00e14bc983ea010 *)
+  | 4582503021941556715%N => fb 13838976467699197445     (* 3f98523824fb05eb -> c00debc67c336605 *)
+  | 4607273400610671357%N => fb 4581422021096572285      (* 3ff052bf5a814afd -> 3f947b0e059d057d *)
+  | _ => go_nan
+  end.
+Definition d6_libm : libm :=
+  {| l_log := d6_log; l_exp := d6_exp; l_exp2 := fun _ => go_nan; l_log2 := fun _ => go_nan;
+     l_pow := fun _ _ => go_nan; l_cbrt := fun _ => go_nan; l_sqrt := fun _ => go_nan; l_floor := fun _ => go_nan |}.
+Definition d6_alpha : f64 := fb 4576918229304087675.          (* 0.01 = 0x3f847ae147ae147b *)
+Definition d6_scale : f64 := fb 4606829229926191667.          (* 0x3feebec6cea31233 *)
+Definition d6_trace (guard : bool) : option (list (Z * N)) :=
+  match with_accuracy d6_libm MLog d6_alpha with
+  | Some m => bits_of_adds (cmf_store d6_libm m m d6_scale guard [(-186, f64_one)])
+  | None => None
+  end.
+Example d6_mapping :
+  match with_accuracy d6_libm MLog d6_alpha with
+  | Some m => bits_of_f64 (gm_gamma m) = 4607273400610671357%N /\ bits_of_f64 (gm_off m) = 0%N /\
+              bits_of_f64 (gm_min m) = 4594581438024445%N /\ bits_of_f64 (gm_max m) = 9216167229727615264%N
+  | None => False
+  end.
+Proof. vm_compute. repeat split; reflexivity. Qed.
+(* legacy: AddWithCount(-189, -7.37e-15) then AddWithCount(-188, 1.0); what the implementation before e1377b7 did *)
+Example d6_legacy : d6_trace false = Some [(-189, 13619057266629187744%N); (-188, 4607182418800017408%N)].
+Proof. vm_compute. reflexivity. Qed.
+(* repaired: AddWithCount(-188, 1.0) only; what the implementation does now (`kchtrace`) *)
+Example d6_repaired : d6_trace true = Some [(-188, 4607182418800017408%N)].
+Proof. vm_compute. reflexivity. Qed.
+Theorem d6_negative_weight :
+  exists m l, with_accuracy d6_libm MLog d6_alpha = Some m /\
+    cmf_store d6_libm m m d6_scale false [(-186, f64_one)] = Some l /\
+    Exists (fun jw => flt (snd jw) f64_zero = true) l.
+Proof.
+  assert (H : match with_accuracy d6_libm MLog d6_alpha with
+              | Some m => has_negative (cmf_store d6_libm m m d6_scale false [(-186, f64_one)])
+              | None => false end = true) by (vm_compute; reflexivity).
+  destruct (with_accuracy d6_libm MLog d6_alpha) as [m|]; [|discriminate H].
+  destruct (has_negative_spec _ H) as (l & E & Hn).
+  exists m, l. split; [reflexivity|]. split; assumption.
+Qed.
